@@ -292,6 +292,40 @@ pub fn blank_run(rng: &mut Rng) -> String {
     c.repeat(k)
 }
 
+/// a block of comment- or quote-shaped lines: optional spaces, a marker, a blank (ASCII or
+/// multi-byte), then content that one time in three starts with an arbitrary ASCII punctuation
+/// character; some lines are the bare marker followed by a blank only. What `unfill`/`refill`
+/// read as indentation is decided on exactly such lines.
+pub fn comment_block(rng: &mut Rng) -> String {
+    let marker = *rng.pick(&[">", "//", "#", "*", "-", "///", "--", "+", ">>", "/*", "", ""]);
+    let lead = *rng.pick(&["", "", " ", "  ", "    "]);
+    let n = 2 + rng.below(5);
+    let e = if rng.chance(1, 4) { "\r\n" } else { "\n" };
+    let mut t = String::new();
+    for i in 0..n {
+        t.push_str(lead);
+        // now and then a line with another marker or none
+        t.push_str(if rng.chance(1, 8) { *rng.pick(&["", ">", "/", "-", "#"]) } else { marker });
+        let blank = *rng.pick(&[" ", " ", " ", "", "\u{a0}", "\u{3000}", "\t", "  ", "\u{2003}"]);
+        t.push_str(blank);
+        if !rng.chance(1, 5) {
+            for k in 0..1 + rng.below(3) {
+                if k > 0 {
+                    t.push(' ');
+                }
+                if rng.chance(1, 3) {
+                    t.push((0x21u8 + rng.below(15) as u8) as char); // ! " # $ % & ' ( ) * + , - . /
+                }
+                t.push_str(*rng.pick(&["a", "word", "é", "x-y", "b,", "w0rd", "字"]));
+            }
+        }
+        if i + 1 < n || rng.chance(1, 2) {
+            t.push_str(e);
+        }
+    }
+    t
+}
+
 fn token(rng: &mut Rng, fl: Flavor) -> &'static str {
     if matches!(fl, Flavor::AnsiOk | Flavor::Mixed) && rng.chance(1, 15) {
         return real_sequence(rng);
